@@ -90,6 +90,12 @@ class Bounds:
             return v
         if isinstance(e, ast.Name):
             g = min(self.guard_ub(e.id, at), self.list_guard_ub(e.id, at))
+            if g is INF:
+                # a plain copy of another local (the result of a checking helper that was inlined: code = number): the
+                # bound the source had where the copy was made
+                ds = Loc(self.model, self.fi).defs.get(e.id, [])
+                if len(ds) == 1 and isinstance(ds[0][0], ast.Name) and ds[0][1] == 'assign':
+                    return self.ub(ds[0][0], ds[0][2], depth + 1)
             return g
         if isinstance(e, ast.BinOp):
             a = self.ub(e.left, at, depth + 1)
@@ -746,6 +752,42 @@ def _r12_hex_sizes(model: Model, run: Run, folder: Folder) -> None:
             run.check(ok13, fi.qualname, '%s.cidr and %s.afi are taken from the same prefix %s' % (s_, s_, p_), fi.loc(st), 'the prefix is stored without its family: with prefixes of two families in one command (`attributes ... nlri 10.0.0.0/24 2001:db8::/32`) an NLRI of one family carries the octets of the other')
     if n13 < 3:
         run.cannot('only %d sites storing a parsed prefix in NLRI settings found' % n13)
+
+    # ------------------------------------------------------------------ R14 type octets and layout of an extended community
+    run.rule(
+        'C18.R14',
+        'the type octets and the field layout of a route target / route origin written in text come from the same entry of the '
+        'tables: _encode() is evaluated for a 2-byte AS, a 4-byte AS, an AS written with L and an IPv4 administrator, and must '
+        'answer (_HEADER[k], "!" + _ENCODE[k]) with k the wide entry exactly for the last three',
+        floor=6,
+    )
+    _r14_extended_community_tables(model, run, folder)
+
+
+def _r14_extended_community_tables(model: Model, run: Run, folder: Folder) -> None:
+    from ..evalfn import Raised, Undecided, eval_function
+
+    fi = model.func('exabgp.configuration.static.parser._encode')
+    run.analysed(fi)
+    hdr = folder.fold(ast.Name(id='_HEADER', ctx=ast.Load()), fi.module, None)
+    enc = folder.fold(ast.Name(id='_ENCODE', ctx=ast.Load()), fi.module, None)
+    if not isinstance(hdr, dict) or not isinstance(enc, dict):
+        run.cannot('_HEADER / _ENCODE tables not folded')
+        return
+    params = [a.arg for a in fi.node.args.args]
+    for command in ('target', 'origin'):
+        for label, comps, parts, wide in (
+            ('2-byte AS 65000', [65000, 100], ['65000', '100'], False),
+            ('4-byte AS 70000', [70000, 100], ['70000', '100'], True),
+            ('AS written 65000L', [65000, 100], ['65000L', '100'], True),
+            ('IPv4 administrator', [0x01020304, 5], ['1.2.3.4', '5'], True),
+        ):
+            r = eval_function(folder, fi, dict(zip(params, (command, comps, parts))), outcomes=True, max_steps=400)
+            if isinstance(r, (Raised, Undecided)) or not isinstance(r, tuple):
+                run.cannot('_encode(%s, %s): not evaluated (%s)' % (command, label, r))
+                continue
+            k = command + ('4' if wide else '')
+            run.check(r == (hdr[k], '!' + enc[k]), fi.qualname, '%s %s -> type octets %s layout %s' % (command, label, r[0].hex() if isinstance(r[0], bytes) else r[0], r[1]), fi.loc(), 'expected the `%s` entry of both tables (%s, !%s): a 4-octet administrator sent under the 2-octet-AS type is read by the peer as another community (target:70000:100 sent 0002 0001 1170 0064 reads target:1:292552804)' % (k, hdr[k].hex(), enc[k]))
 
 
 # (function, operand) -> why the packed operand is in range although no guard shows it
